@@ -11,7 +11,7 @@ Range(f) == {f[x] : x \in DOMAIN f}
 Tr == Cases[ci].events
 Kind == Cases[ci].kind
 Outs == Range(Cases[ci].outs)
-M0 == [viol |-> {}, fin |-> {}, imp |-> {}, completions |-> 0, closeRet |-> FALSE, provided |-> {}, lastState |-> "nil",
+M0 == [viol |-> {}, fin |-> {}, imp |-> {}, completions |-> 0, closeRet |-> FALSE, provided |-> {}, got |-> {}, lastState |-> "nil",
        pendingClose |-> 0, notifs |-> 0]
 Init == ci = 1 /\ l = 1 /\ m = M0 /\ TLCSet(1, FALSE)
 VS(mm, S) == [mm EXCEPT !.viol = @ \cup {<<x[1], x[2], x[3], ci, l>> : x \in S}]
@@ -29,6 +29,9 @@ OnNotif(mm, e) ==
     VS([mm EXCEPT !.fin = @ \cup {e.prev}, !.completions = IF e.k = "CO" THEN @ + 1 ELSE @, !.notifs = @ + 1],
        after \cup late
        \cup (IF e.prev \in mm.fin THEN {<<"C12", "stage-finished-twice", e.prev>>} ELSE {})
+       \* a stage that works on an input cannot have finished if the step never accepted that input
+       \cup (IF e.prev \in {"deploy", "enabling", "starting"} /\ e.prev \notin mm.got
+              THEN {<<"C12", "stage-reported-finished-although-its-input-was-never-accepted", e.prev>>} ELSE {})
        \cup (IF e.prev \in mm.imp THEN {<<"C12", "stage-finished-after-declared-impossible", e.prev>>} ELSE {})
        \cup (IF e.prev \notin StagesOf(Kind) THEN {<<"C12", "unknown-stage", e.prev>>} ELSE {})
        \cup (IF e.out # "nil" /\ e.out \notin DeclaredOf(Kind, e.prev, Outs) THEN {<<"C12", "undeclared-output", e.prev \o "." \o e.out>>} ELSE {})
@@ -52,6 +55,7 @@ OnFinal(mm, e) ==   \* state observed after the last close returned
 
 Dispatch(mm, e) ==
   CASE e.ev = "Notif"  -> OnNotif(mm, e)
+    [] e.ev = "SProv" /\ e.ok -> [mm EXCEPT !.got = @ \cup {e.stage}]
     [] e.ev = "EnvRet" -> OnEnvRet(mm, e)
     [] e.ev = "Final"  -> OnFinal(mm, e)
     [] OTHER -> mm
